@@ -433,6 +433,12 @@ class Maker:
       return collections.defaultdict(list, {k: self(v) for k, v in d['ddict']})
     if 'hostile' in d:
       return stubmod.Hostile()
+    if 'halfcopy' in d:
+      # one of two per-Maker objects that cannot be deep-copied (often twice)
+      pool = self.__dict__.setdefault('_halfcopy', {})
+      if d['halfcopy'] not in pool:
+        pool[d['halfcopy']] = stubmod.HalfCopyable(d['halfcopy'])
+      return pool[d['halfcopy']]
     if 'novalue' in d:
       return NO_VALUE   # the sentinel itself, explicitly stored as a value
     if 'const' in d:
